@@ -349,8 +349,10 @@ pub fn names_rule(rule: &Rule, e: &WErr) -> bool {
         (Rule::PayloadNotAligned(l), WErr::DataLen32bitMultiple(len)) => l == len,
         (Rule::ReasonTooLong(l), WErr::ReasonLenTooLarge { len, .. }) => l == len,
         (Rule::SdesValueTooLong(l), WErr::SdesValueTooLarge { len, .. }) => l == len,
-        (Rule::PrivTooLong(p, _), WErr::SdesPrivPrefixTooLarge { len, .. }) => p == len,
-        (Rule::PrivTooLong(_, v), WErr::SdesValueTooLarge { len, .. }) => v == len,
+        // "a PRIV prefix plus value above 254 bytes": the offending value may be either part or the sum
+        // (with or without the prefix-length octet)
+        (Rule::PrivTooLong(p, v), WErr::SdesPrivPrefixTooLarge { len, .. }) => len == p || *len == p + v || *len == p + v + 1,
+        (Rule::PrivTooLong(p, v), WErr::SdesValueTooLarge { len, .. }) => len == v || *len == p + v || *len == p + v + 1,
         (Rule::RpsiPayloadType(_), WErr::PayloadTypeInvalid) => true,
         (Rule::RpsiIgnoredBits(_), WErr::PaddingBitsTooLarge) => true,
         (Rule::FciInWrongKind, WErr::FciWrongFeedbackPacketType) => true,
